@@ -722,6 +722,11 @@ def build_cases(tier="quick"):
     from contracts import c05
 
     extra = [Case(f"{PROP}/solve.solve_low_level", c.case, c.harness, sources=c.sources) for c in c05.timeout_cases()]
+    # the consumers of solve_low_level: a timed-out job (unknown) is never acted upon as if it were unsat (C10's unit: setup())
+    from contracts import c10
+    from contracts.common import rewrap
+
+    extra += rewrap(PROP, c10.setup_selection_cases(), "timeout-is-not-unsat")
     return run_cases() + run_vs_cancel_cases() + cancel_cases() + submit_vs_shutdown_cases() + join_cases() + extra
 
 
